@@ -686,6 +686,11 @@ func ilCase(env *core.Env, idx int, prop string) *core.CaseResult {
 					l.changedKey = true
 				}
 				v := view(l)
+				if st.Kind == "upd-2col" && idxKinds[1] != "" {
+					if cur, ok := v[st.ID]; ok && cur[1].I != st.K {
+						l.changedKey = true // (k really changes: the listed uncommitted-index-key-change finding applies to foreign readers)
+					}
+				}
 				before := v.clone()
 				st.apply(v, l.reg)
 				// record the delta into wr
